@@ -211,6 +211,47 @@ INFO = {
                      "takes over and nothing is delivered while the traffic lasts", ["C15", "C09"]),
     "C17-5": ("C17", "try_decode compares used_bytes + expected_size with the buffer: a 10-byte prefix near 2^64 arriving "
                      "in one read overflows the addition and panics the network thread", ["C17", "C02"]),
+    "C02-6": ("C02", "decode() releases the buffer of a frame above 65535 bytes after try_decode has already stored the "
+                     "undecoded tail of the chunk in it: the tail is thrown away (needs a big frame completed by a chunk "
+                     "that ends inside the next frame)", ["C02", "C01"]),
+    "C04-6": ("C04", "send() that answers ResourceNotFound deregisters the resource itself: the peer's close, processed "
+                     "afterwards, finds nothing to deregister and no Disconnected is ever delivered", ["C04", "C03", "C18"]),
+    "C05-6": ("C05", "for_each (sync): the callback is guarded by a turn flag taken once per poll but released after every "
+                     "event: the second event of one poll runs unguarded while a signal is delivered", ["C05"]),
+    "C06-6": ("C06", "a blocked receive that is woken by a plain event re-checks the priority channel and puts the plain "
+                     "event back at the tail: one sender's plain events come out of order", ["C06", "C07", "C16"]),
+    "C07-6": ("C07", "ready_event folds the timer commands only when no known timer is due: a later timer with an earlier "
+                     "deadline, or a cancel, issued after a receive call has seen the first timer, is ignored at that call", ["C07", "C08"]),
+    "C09-6": ("C09", "the signal thread (async / enqueue) loops on receive_timeout with `while let`: it looks at the running "
+                     "flag only after 50 ms without a signal, so with a steady stream of signals wait()/drop never return", ["C09"]),
+    "C12-6": ("C12", "the plain Udp listener treats a 0-byte recv_from as 'nothing more': empty datagrams are dropped and the "
+                     "drain loop stops there", ["C12", "C13"]),
+    "C14-6": ("C14", "ADAPTER_ID_MASK narrowed to 5 bits: bits 5 and 6 of a raw id belong to no accessor; a forged id reads "
+                     "as another transport's", ["C14"]),
+    "C19-6": ("C19", "SocketAddr -> RemoteAddr turns an IPv4-mapped IPv6 address into the plain IPv4 one", ["C19"]),
+    "C01-6": ("C01", "Ws receive() uses try_lock on the connection state and gives the read event up when a sender holds it: "
+                     "messages that arrive while another thread is inside a long send() on the same endpoint are "
+                     "stranded if no further traffic comes", ["C01", "C10"]),
+    "C08-6": ("C08", "a timer command that wakes a blocked receive is applied after the rest of the channel was folded: "
+                     "send_with_timer + cancel_timer back to back while the receiver is blocked leaves the timer armed", ["C08", "C16", "C07"]),
+    "C10-6": ("C10", "the FramedTcp send lock became a hand-rolled flag whose slow path re-takes it with load + store: two "
+                     "waiters (or a waiter and a newcomer) both get in; needs >= 3 threads and many small messages", ["C10", "C01"]),
+    "C11-6": ("C11", "Tcp send() gives up after 2^21 consecutive WouldBlock answers with ResourceNotAvailable even when part "
+                     "of the buffer is already written: needs a multi-MiB send to a receiver that stops reading for ~1 s", ["C11", "C13"]),
+    "C13-6": ("C13", "FramedTcp pending(): the borrowed socket2 handle is forgotten only when set_tcp_keepalive succeeds; a "
+                     "keepalive the OS rejects closes the descriptor of a connection that is then reported ready", ["C13", "C18", "C14"]),
+    "C15-6": ("C15", "the start-up cache is capped at 1024 events: the rest of the poll batch that crosses the cap is read "
+                     "from the socket and thrown away (needs > 1024 events before the listener call)", ["C15"]),
+    "C16-6": ("C16", "receive_timeout recomputes the remaining time after a wake-up and returns None when the deadline has "
+                     "passed, before looking at ready_event: a timer expiring within the wake-up latency of the deadline is "
+                     "reported as nothing", ["C16", "C08"]),
+    "C17-6": ("C17", "a pending resource that ends Disconnected always emits Connected(endpoint, false), also for accepted "
+                     "sockets: a peer that resets before the accept is processed (or fails the Ws handshake) produces an "
+                     "event for a connection that never existed", ["C17", "C03"]),
+    "C18-6": ("C18", "the Tcp accept loop no longer leaves on an accept() error: with the descriptor table full and a "
+                     "connection waiting (EMFILE) the network thread spins in accept() and stop() cannot end it", ["C18", "C09"]),
+    "C03-6": ("C03", "Tcp connect_with swallows a synchronous connect(2) error (ENETUNREACH towards a multicast / broadcast "
+                     "address): connect() returns an endpoint that is never answered by a Connected event", ["C03", "C18", "C13"]),
     "C19-5": ("C19", "an ip:port text with port 0 (127.0.0.1:0, [::1]:0) is classified as a string", ["C19"]),
     "C19-1": ("C19", "SocketAddrV6 with non-zero flowinfo/scope_id converted to RemoteAddr: the fields are dropped", ["C19"]),
 }
